@@ -148,6 +148,10 @@ func (c *v3Ctl) hook(name string) {
 	if strings.HasPrefix(name, "clean.") {
 		return
 	}
+	if _, known := v3PcOfGate[name]; !known {
+		// gates of other checks' pc models (X05: append.after_layout, ...)
+		return
+	}
 	p.ev <- v3Event{gate: name}
 	<-p.release
 }
